@@ -146,7 +146,7 @@ type history struct {
 	SkipHooks   bool   // Session{SkipHooks: true} (Updates / Update: then not a hook-running update)
 	Returning   bool   // Clauses(clause.Returning{})
 	SelectSlice bool   // Select([]string{...}) instead of Select(a, b...)
-	OmitComma   bool   // Omit("a,b") (one comma separated string) instead of Omit(a, b)
+	OmitSep     string // Omit("a, b"): one comma separated string with this separator ("" = Omit(a, b))
 }
 
 func (h history) String() string {
@@ -157,7 +157,7 @@ func (h history) String() string {
 	for _, x := range []struct {
 		on   bool
 		name string
-	}{{h.Decoy, "session-parent+decoys"}, {h.Context, "with-context"}, {h.Scopes, "cond-via-scopes"}, {h.SkipHooks, "Session{SkipHooks}"}, {h.Returning, "Returning{}"}, {h.SelectSlice, "select-slice"}, {h.OmitComma, "omit-comma-string"}} {
+	}{{h.Decoy, "session-parent+decoys"}, {h.Context, "with-context"}, {h.Scopes, "cond-via-scopes"}, {h.SkipHooks, "Session{SkipHooks}"}, {h.Returning, "Returning{}"}, {h.SelectSlice, "select-slice"}, {h.OmitSep != "", fmt.Sprintf("omit-comma-string%q", h.OmitSep)}} {
 		if x.on {
 			parts = append(parts, x.name)
 		}
